@@ -7,6 +7,8 @@ import (
 	"os"
 	"os/exec"
 	"path/filepath"
+	"regexp"
+	"slices"
 	"sort"
 	"strings"
 	"sync"
@@ -32,6 +34,7 @@ func (e *Engine) newCtx(fi *FuncInfo, ct *Contract) *FnCtx {
 	c.frames = []*inlineFrame{{fn: fi, pkg: fi.Pkg, tsubst: map[*types.TypeParam]types.Type{}}}
 	c.objTy = e.contractUsesLive(ct)
 	c.Monitored = map[string]bool{}
+	c.namedFacts = map[string]int{}
 	return c
 }
 
@@ -224,11 +227,15 @@ func (e *Engine) VerifyFuncCase(key string, targs []string, cf *CaseFix) (rep *F
 			spkg = fi.Pkg.Types
 		}
 		g := c.eval(&Env{st: st, spec: true, spkg: spkg}, ax.Expr)
-		c.facts = append(c.facts, g.T)
+		c.namedFacts[ax.Label] = len(c.facts)
+		c.axiomFacts = append(c.axiomFacts, len(c.facts))
+		c.facts = append(c.facts, axiomTrigger(g.T))
 	}
 	if ct != nil {
 		for _, ln := range ct.Uses {
-			c.facts = append(c.facts, c.lemmaFact(ln))
+			lf := c.lemmaFact(ln)
+			c.namedFacts[ln] = len(c.facts)
+			c.facts = append(c.facts, lf)
 		}
 	}
 	preEnv := &Env{st: st, spec: true, old: st, spkg: fi.Pkg.Types,
@@ -236,7 +243,11 @@ func (e *Engine) VerifyFuncCase(key string, targs []string, cf *CaseFix) (rep *F
 	if ct != nil {
 		for _, rq := range ct.Requires {
 			g := c.eval(preEnv, rq.Expr)
+			n0 := len(c.facts)
 			c.assume(st, g.T)
+			if len(c.facts) == n0+1 {
+				c.reqFacts = append(c.reqFacts, n0)
+			}
 		}
 		for _, tq := range ct.Typing {
 			g := c.eval(preEnv, tq.Expr)
@@ -245,6 +256,8 @@ func (e *Engine) VerifyFuncCase(key string, targs []string, cf *CaseFix) (rep *F
 		}
 	}
 	c.entry = st.clone()
+	c.nEntryFacts = len(c.facts)
+	c.nEntryDecls = len(c.decls)
 	if ct != nil && ct.Trusted {
 		rep.Trusted = true
 		return rep
@@ -254,7 +267,31 @@ func (e *Engine) VerifyFuncCase(key string, targs []string, cf *CaseFix) (rep *F
 		o.MustFail = true
 	}
 	// known-finding predicates are evaluated over the entry state
-	c.execBlock(st, fi.Decl.Body.List)
+	cutAt := c.cutSites(fi, ct)
+	var leaves []*State // branch ends of an if statement that directly precedes a cut point
+	for i, s := range fi.Decl.Body.List {
+		if st.dead() {
+			break
+		}
+		if cls := cutAt[i]; len(cls) > 0 {
+			if len(leaves) == 0 {
+				leaves = []*State{st}
+			}
+			c.doCut(st, leaves, cls, s, fi)
+			leaves = nil
+		}
+		if ifs, ok := s.(*ast.IfStmt); ok && len(cutAt[i+1]) > 0 {
+			// the paths through the if reach the cut separately: no joined heap to reason about
+			leaves = c.execIfLeaves(st, ifs)
+			if len(leaves) == 0 {
+				st.pc = "false"
+			} else {
+				st.become(c.join(leaves...))
+			}
+			continue
+		}
+		c.exec(st, s)
+	}
 	if !st.dead() {
 		var vals []Val
 		for _, r := range fr.results {
@@ -265,10 +302,16 @@ func (e *Engine) VerifyFuncCase(key string, targs []string, cf *CaseFix) (rep *F
 				c.unsup(fi.Decl, "missing return")
 			}
 		}
-		fr.returns = append(fr.returns, &retRec{st: st.clone(), vals: vals})
+		fr.returns = append(fr.returns, &retRec{st: st.clone(), vals: vals, afterCut: c.cutDone})
 	}
+	cutLo, cutHi := c.skipLo, c.skipHi
 	// deferred calls run at every exit
 	for _, r := range fr.returns {
+		if r.afterCut {
+			c.skipLo, c.skipHi = cutLo, cutHi
+		} else {
+			c.skipLo, c.skipHi = 0, 0
+		}
 		c.runDefers(r, fr)
 		if r.panicking && !r.recovered && !r.st.dead() {
 			// nothing stopped the panic: it leaves the function
@@ -284,16 +327,43 @@ func (e *Engine) VerifyFuncCase(key string, targs []string, cf *CaseFix) (rep *F
 			}
 		}
 	}
+	if !c.cutDone {
+		c.skipLo, c.skipHi = 0, 0
+		c.finishExits(fi, ct, sig, cf, fr.returns, true)
+	} else {
+		// exits before the cut point see the whole path history; exits after it see the entry
+		// facts, the cut assertions and what happened since
+		var pre, post []*retRec
+		for _, r := range fr.returns {
+			if r.afterCut {
+				post = append(post, r)
+			} else {
+				pre = append(pre, r)
+			}
+		}
+		c.skipLo, c.skipHi = 0, 0
+		c.labelSuffix = "@precut"
+		c.finishExits(fi, ct, sig, cf, pre, false)
+		c.labelSuffix = ""
+		c.skipLo, c.skipHi = cutLo, cutHi
+		c.finishExits(fi, ct, sig, cf, post, true)
+	}
+	rep.Obls = c.Obls
+	return rep
+}
+
+// finishExits proves the contract's postconditions, exit hints and frame over the join of the
+// given (live) return states.
+func (c *FnCtx) finishExits(fi *FuncInfo, ct *Contract, sig *types.Signature, cf *CaseFix, returns []*retRec, cover bool) {
 	var states []*State
-	for _, r := range fr.returns {
+	for _, r := range returns {
 		if !r.st.dead() {
 			states = append(states, r.st)
 		}
 	}
 	if len(states) == 0 {
-		// the function never returns normally (always panics / loops): postconditions hold vacuously
-		rep.Obls = c.Obls
-		return rep
+		// the function never returns normally here (always panics / loops): postconditions hold vacuously
+		return
 	}
 	exit := c.join(states...)
 	nres := sig.Results().Len()
@@ -301,8 +371,8 @@ func (e *Engine) VerifyFuncCase(key string, targs []string, cf *CaseFix) (rep *F
 	for i := 0; i < nres; i++ {
 		rt := c.subst(sig.Results().At(i).Type())
 		term := ""
-		for k := len(fr.returns) - 1; k >= 0; k-- {
-			r := fr.returns[k]
+		for k := len(returns) - 1; k >= 0; k-- {
+			r := returns[k]
 			if r.st.dead() {
 				continue
 			}
@@ -317,61 +387,233 @@ func (e *Engine) VerifyFuncCase(key string, targs []string, cf *CaseFix) (rep *F
 	if o := c.oblige(exit, "vacuity", "end", "false", "function end reachable", false, fi.Decl); o != nil {
 		o.MustFail = true
 	}
-	if ct != nil {
-		_, _, resn := c.paramNames(fi.Obj, ct)
-		m := map[string]Val{}
-		for i, r := range res {
-			if i < len(resn) && resn[i] != "" && resn[i] != "_" {
-				m[resn[i]] = r
+	if ct == nil {
+		return
+	}
+	_, _, resn := c.paramNames(fi.Obj, ct)
+	m := map[string]Val{}
+	for i, r := range res {
+		if i < len(resn) && resn[i] != "" && resn[i] != "_" {
+			m[resn[i]] = r
+		}
+		m[fmt.Sprintf("ret%d", i)] = r
+	}
+	if nres == 1 {
+		m["ret"] = res[0]
+	}
+	postEnv := &Env{st: exit, spec: true, old: c.entry, spkg: fi.Pkg.Types,
+		lookup: func(n string) (Val, bool) {
+			if v, ok := m[n]; ok {
+				return v, true
 			}
-			m[fmt.Sprintf("ret%d", i)] = r
+			v, ok := c.paramVals[n]
+			return v, ok
+		}}
+	for _, h := range ct.ExitHints {
+		g := c.eval(postEnv, h.Expr)
+		c.oblige(exit, "hint", "exit:"+h.Label, g.T, h.Src, h.Try, fi.Decl)
+		c.assume(exit, g.T)
+	}
+	for _, en := range ct.Ensures {
+		g := c.eval(postEnv, en.Expr)
+		if o := c.oblige(exit, "post", en.Label, g.T, en.Src, en.Try, fi.Decl); o != nil {
+			c.applyUsing(o, en)
 		}
-		if nres == 1 {
-			m["ret"] = res[0]
-		}
-		postEnv := &Env{st: exit, spec: true, old: c.entry, spkg: fi.Pkg.Types,
-			lookup: func(n string) (Val, bool) {
-				if v, ok := m[n]; ok {
-					return v, true
-				}
-				v, ok := c.paramVals[n]
-				return v, ok
-			}}
-		for _, h := range ct.ExitHints {
-			g := c.eval(postEnv, h.Expr)
-			c.oblige(exit, "hint", "exit:"+h.Label, g.T, h.Src, h.Try, fi.Decl)
-			c.assume(exit, g.T)
-		}
-		var cases []string
-		if ct.Cases != nil && false {
-			entryEnv := &Env{st: c.entry, spec: true, old: c.entry, spkg: fi.Pkg.Types, lookup: func(n string) (Val, bool) { v, ok := c.paramVals[n]; return v, ok }}
-			t := c.eval(entryEnv, ct.Cases.Expr).T
-			for k := ct.Cases.Lo; k <= ct.Cases.Hi; k++ {
-				cases = append(cases, eq(t, itoa(int64(k))))
+		// cover: a clause `A ==> B` must not hold merely because no verified path reaches
+		// the exit with A (e.g. all such paths were pruned as out of subset)
+		if be, ok := unparen(en.Expr).(*ast.BinaryExpr); ok && be.Op == tokImplies && !en.Try && cf == nil && cover {
+			a := c.eval(postEnv, be.X)
+			if o := c.oblige(exit, "vacuity", "cover:"+en.Label, "false", "some verified path reaches the exit with: "+en.Src, false, fi.Decl); o != nil {
+				o.MustFail = true
+				o.PC = and(exit.pc, a.T)
 			}
-			cases = append(cases, or(app("<", t, itoa(int64(ct.Cases.Lo))), app(">", t, itoa(int64(ct.Cases.Hi)))))
-		}
-		for _, en := range ct.Ensures {
-			g := c.eval(postEnv, en.Expr)
-			if o := c.oblige(exit, "post", en.Label, g.T, en.Src, en.Try, fi.Decl); o != nil {
-				o.Cases = cases
-			}
-			// cover: a clause `A ==> B` must not hold merely because no verified path reaches
-			// the exit with A (e.g. all such paths were pruned as out of subset)
-			if be, ok := unparen(en.Expr).(*ast.BinaryExpr); ok && be.Op == tokImplies && !en.Try && cf == nil {
-				a := c.eval(postEnv, be.X)
-				if o := c.oblige(exit, "vacuity", "cover:"+en.Label, "false", "some verified path reaches the exit with: "+en.Src, false, fi.Decl); o != nil {
-					o.MustFail = true
-					o.PC = and(exit.pc, a.T)
-				}
-			}
-		}
-		if ct.AssignsGiven {
-			c.checkFrame(exit, ct, postEnv)
 		}
 	}
-	rep.Obls = c.Obls
-	return rep
+	if ct.AssignsGiven {
+		c.checkFrame(exit, ct, postEnv)
+	}
+}
+
+// applyUsing: a clause with a `using` list is proved from the named lemmas and axioms only; the
+// other named facts (lemmas of `uses`, package axioms) are left out of its query.
+func (c *FnCtx) applyUsing(o *Obligation, cl Clause) {
+	if !cl.UsingGiven {
+		return
+	}
+	skip := append([]int{}, o.SkipExtra...)
+	for name, idx := range c.namedFacts {
+		if !slices.Contains(cl.Using, name) {
+			skip = append(skip, idx)
+		}
+	}
+	if !c.cutDone && len(c.C.Cuts) > 0 {
+		// the cut point was not usable (see cutSites): the clause is proved from the whole context
+		return
+	}
+	for _, u := range cl.Using {
+		if _, ok := c.namedFacts[u]; !ok {
+			c.unsup(nil, "clause %s: `using %s` names no lemma of `uses` and no axiom", cl.Label, u)
+		}
+	}
+	o.SkipExtra = skip
+}
+
+// cutSites maps top-level statement indices of the function body to the cut clauses that
+// apply before them.  A site `before Callee#k` names the k-th call of Callee in source order;
+// it must lie in a top-level expression or assignment statement.
+func (c *FnCtx) cutSites(fi *FuncInfo, ct *Contract) map[int][]Clause {
+	out := map[int][]Clause{}
+	if ct == nil || len(ct.Cuts) == 0 {
+		return out
+	}
+	count := map[string]int{}
+	where := map[string]int{}
+	for i, s := range fi.Decl.Body.List {
+		ast.Inspect(s, func(n ast.Node) bool {
+			switch x := n.(type) {
+			case *ast.FuncLit:
+				return false
+			case *ast.ReturnStmt:
+				// `cut before return#k`: the k-th return statement in source order
+				count["return"]++
+				site := fmt.Sprintf("return#%d", count["return"])
+				if n == ast.Node(s) {
+					where[site] = i
+				} else {
+					where[site] = -1
+				}
+			case *ast.CallExpr:
+				name := ""
+				switch f := unparen(x.Fun).(type) {
+				case *ast.Ident:
+					name = f.Name
+				case *ast.SelectorExpr:
+					name = f.Sel.Name
+				}
+				if name != "" {
+					count[name]++
+					site := fmt.Sprintf("%s#%d", name, count[name])
+					switch s.(type) {
+					case *ast.ExprStmt, *ast.AssignStmt:
+						where[site] = i
+					default:
+						where[site] = -1
+					}
+				}
+			}
+			return true
+		})
+	}
+	for site, cls := range ct.Cuts {
+		i, ok := where[site]
+		if !ok || i < 0 {
+			// the code no longer has this site (or it moved into a nested statement): verify
+			// without the cut — the obligations stay the same, only harder to discharge
+			c.E.Warnings = append(c.E.Warnings, fmt.Sprintf("%s: cut site %s not usable, verifying without it", c.Fn.Key, site))
+			continue
+		}
+		out[i] = append(out[i], cls...)
+	}
+	return out
+}
+
+// doCut: prove the cut assertions in the current state, then forget the path: every heap cell
+// and every local variable assigned anywhere in the body gets a fresh value, the facts
+// collected since the entry are no longer part of later queries (facts that speak only about
+// the entry state are kept), and the cut assertions are assumed of the new state.
+func (c *FnCtx) doCut(st *State, leaves []*State, cls []Clause, s ast.Stmt, fi *FuncInfo) {
+	if c.cutDone {
+		c.unsup(s, "more than one cut point")
+	}
+	for k, lf := range leaves {
+		for _, cl := range cls {
+			g := c.eval(c.specEnvAt(lf, s.Pos()), cl.Expr)
+			lbl := cl.Label
+			if len(leaves) > 1 {
+				lbl += fmt.Sprintf("@path%d", k+1)
+			}
+			if o := c.oblige(lf, "cut", lbl, g.T, cl.Src, cl.Try, s); o != nil {
+				c.applyUsing(o, cl)
+			}
+		}
+	}
+	hi := len(c.facts)
+	// facts about the entry state only stay usable
+	entryDecl := map[string]bool{}
+	var kept []string
+	for _, f := range c.facts[c.nEntryFacts:hi] {
+		if c.entryOnlyFact(f, entryDecl) {
+			kept = append(kept, f)
+		}
+	}
+	c.facts = append(c.facts, kept...)
+	c.skipLo, c.skipHi = c.nEntryFacts, hi
+	// the precondition itself is forgotten too: the cut assertion restates what is still needed
+	c.skipExtra = c.reqFacts
+	c.cutDone = true
+	// forget the heap and the assigned locals
+	c.havocAll(st)
+	for _, v := range c.assignedVars(fi.Decl.Body, nil) {
+		if old, ok := st.vars[v]; ok {
+			if c.boxed[v] {
+				continue // lives in the (forgotten) heap; its address is unchanged
+			}
+			st.vars[v] = c.freshVal("cut_"+v.Name(), old.Typ, st)
+		}
+	}
+	// an address-taken local was allocated by this call: its (unchanged) address lies between
+	// the entry's allocation frontier and the current one
+	var boxedVars []types.Object
+	for v := range st.vars {
+		if c.boxed[v] {
+			boxedVars = append(boxedVars, v)
+		}
+	}
+	sort.Slice(boxedVars, func(i, j int) bool { return boxedVars[i].Pos() < boxedVars[j].Pos() })
+	for _, v := range boxedVars {
+		val := st.vars[v]
+		c.facts = append(c.facts, app(">=", val.T, c.entry.alloc), app(">", val.T, "0"), app("<", val.T, st.alloc))
+	}
+	for _, cl := range cls {
+		if cl.Try {
+			continue // attempted only: never assumed
+		}
+		g := c.eval(c.specEnvAt(st, s.Pos()), cl.Expr)
+		n0 := len(c.facts)
+		c.assume(st, g.T)
+		if len(c.facts) == n0+1 {
+			// a later clause with a `using` list keeps this assumption only if it names it (cut:<label>)
+			lbl := cl.Label
+			if i := strings.LastIndex(lbl, "."); i >= 0 {
+				lbl = lbl[i+1:]
+			}
+			c.namedFacts["cut_"+lbl] = n0
+		}
+	}
+}
+
+var bangIdent = regexp.MustCompile(`[A-Za-z_][A-Za-z0-9_.$]*![A-Za-z0-9_\-]+`)
+
+// entryOnlyFact: every generated name the fact mentions belongs to the entry state (declared
+// before the body was executed, or a heap cell of epoch 0).
+func (c *FnCtx) entryOnlyFact(f string, cache map[string]bool) bool {
+	if len(cache) == 0 {
+		cache["\x00"] = true
+		for _, d := range c.decls[:c.nEntryDecls] {
+			// (declare-const NAME ...) / (declare-fun NAME ...)
+			fs := strings.Fields(d)
+			if len(fs) >= 2 {
+				cache[fs[1]] = true
+			}
+		}
+	}
+	for _, id := range bangIdent.FindAllString(f, -1) {
+		if strings.HasSuffix(id, "!e0") || cache[id] {
+			continue
+		}
+		return false
+	}
+	return true
 }
 
 // entryPtrFacts: pointers passed in were allocated before the call.
@@ -576,6 +818,8 @@ func (c *FnCtx) checkFrame(exit *State, ct *Contract, postEnv *Env) {
 // ---------------------------------------------------------------------------
 // queries
 
+var pfSym = regexp.MustCompile(`\(pf_[A-Za-z0-9_.$]+ `)
+
 func (o *Obligation) BuildQuery(extraAssume string, negGoal bool) string {
 	c := o.ctx
 	var b strings.Builder
@@ -585,11 +829,47 @@ func (o *Obligation) BuildQuery(extraAssume string, negGoal bool) string {
 		b.WriteString(d)
 		b.WriteString("\n")
 	}
-	for _, f := range c.facts[:o.NFact] {
-		b.WriteString("(assert ")
-		b.WriteString(f)
-		b.WriteString(")\n")
+	var body strings.Builder
+	var axioms []int
+	for i, f := range c.facts[:o.NFact] {
+		if i >= o.SkipLo && i < o.SkipHi {
+			continue // forgotten at a cut point
+		}
+		if len(o.SkipExtra) > 0 && slices.Contains(o.SkipExtra, i) {
+			continue
+		}
+		if slices.Contains(c.axiomFacts, i) {
+			axioms = append(axioms, i)
+			continue
+		}
+		body.WriteString("(assert ")
+		body.WriteString(f)
+		body.WriteString(")\n")
 	}
+	// relevance: a package axiom about abstract functions (pf_...) that nothing else in the
+	// query mentions cannot contribute to the proof; leaving it out is sound (one hypothesis
+	// fewer) and keeps quantifiers out of queries they have nothing to do with
+	rest := body.String() + o.PC + o.Goal + extraAssume
+	for _, i := range axioms {
+		f := c.facts[i]
+		relevant := false
+		syms := pfSym.FindAllString(f, -1)
+		if len(syms) == 0 {
+			relevant = true
+		}
+		for _, s := range syms {
+			if strings.Contains(rest, s) {
+				relevant = true
+				break
+			}
+		}
+		if relevant {
+			body.WriteString("(assert ")
+			body.WriteString(f)
+			body.WriteString(")\n")
+		}
+	}
+	b.WriteString(body.String())
 	if extraAssume != "" {
 		for _, d := range o.xDecls {
 			b.WriteString(d + "\n")
